@@ -45,7 +45,9 @@ func contentsOf(i int) []recordtypes.Content {
 	case 0:
 		return []recordtypes.Content{{Digest: "d1", DigestAlgo: "sha256", URI: "u", Meta: "m"}}
 	default:
-		return []recordtypes.Content{{Digest: "d2", DigestAlgo: "sha256"}, {Digest: "d1", DigestAlgo: "md5", URI: "x"}, {Digest: "d1", DigestAlgo: "crc", Meta: "z"}}
+		// (one digest carries the line break it was pasted with, one algorithm a trailing blank: "exactly the
+		// submitted contents" includes them)
+		return []recordtypes.Content{{Digest: "d2\n", DigestAlgo: "sha256 "}, {Digest: "d1", DigestAlgo: "md5", URI: "x"}, {Digest: "d1", DigestAlgo: "crc", Meta: "z"}}
 	}
 }
 
